@@ -64,8 +64,14 @@ def before_after(fi, perturb_var, extra_after=None, x_name="X", allow_rebound=Fa
         c = aft[0]
         a1 = unparse(c.args[1]) if len(c.args) > 1 else ""
         ok = a1 == perturb_var or (extra_after is not None and extra_after(c.args[1] if len(c.args) > 1 else None))
-        if unparse(c.args[0]) != "model" or not ok:
+        if unparse(c.args[0]) != "model":
             out.append(violation("ROLE", fi, role_a, "after-call is `%s`" % unparse(c)[:80], c))
+        elif not ok:
+            # a named deviation only: the unmodified input (or nothing) is evaluated again; any other expression is not recognised
+            if a1 in (x_name, "") or a1.startswith(x_name + "["):
+                out.append(violation("ROLE", fi, role_a, "after-call evaluates `%s`, not the perturbed input: `%s`" % (a1, unparse(c)[:80]), c))
+            else:
+                out.append(unrecognised("ROLE", fi, role_a, "after-call is `%s`" % unparse(c)[:80], c))
         else:
             out.append(holds("ROLE", fi, role_a, unparse(c)[:80], c, nontrivial=False))
     # which result is returned first
@@ -518,11 +524,19 @@ def product_rules(repo, q):
         ev = [s for s in t.body if isinstance(s, ast.Assign) and isinstance(s.value, ast.Call) and dotted(s.value.func) == "_apply"]
         ap = [s for s in t.body if isinstance(s, ast.Expr) and unparse(s.value).startswith("y.append(")]
         ok = bool(resets) and bool(ev) and bool(ap) and t.body.index(ev[0]) < t.body.index(ap[0]) < t.body.index(resets[0])
+        verdict = violation
         if ok:
-            rt = unparse(resets[0])
-            ok = rt in ("X_, args_ = ([], [[] for _ in args])", "(X_, args_) = ([], [[] for _ in args])")
-        out.append((holds if ok else violation)("R-FLUSH", fi, "a full batch is evaluated, appended, then both buffers are reset together",
-                                                unparse(t.test), t))
+            after = [unparse(s_) for s_ in t.body[t.body.index(ap[0]) + 1:] if isinstance(s_, ast.Assign)]
+            both = ("X_, args_ = ([], [[] for _ in args])" in after or "(X_, args_) = ([], [[] for _ in args])" in after or
+                    ("X_ = []" in after and "args_ = [[] for _ in args]" in after))
+            if not both:
+                ok = False
+                # named deviation: exactly one of the two buffers is reset (rows of later batches pair with stale arguments); any other
+                # spelling of the reset is not recognised
+                one = ("X_ = []" in after) != any(a.startswith("args_ = ") for a in after)
+                verdict = violation if one else unrecognised
+        out.append((holds if ok else verdict)("R-FLUSH", fi, "a full batch is evaluated, appended, then both buffers are reset together",
+                                              unparse(t.test), t))
     post = list(loop.orelse)
     idx = None
     for parent_body in (fi.node.body,):
